@@ -39,7 +39,16 @@ def remove_worktree(path):
     sh(['git', '-C', '/repo', 'worktree', 'prune'])
 
 
+def ensure_tools():
+    """The demonstrations import the neutral emulator driver from /tmp/hid_emu (where the sub-agents had it);
+    a copy is kept in /verif/seeded/_tools and put back there when missing."""
+    if not os.path.exists('/tmp/hid_emu/run_hid.py'):
+        import shutil
+        shutil.copytree(os.path.join(os.path.dirname(os.path.dirname(os.path.abspath(__file__))), 'seeded', '_tools', 'hid_emu'), '/tmp/hid_emu', dirs_exist_ok=True)
+
+
 def validate(d, wt):
+    ensure_tools()
     res = {}
     patch = os.path.join(d, 'patch.diff')
     demo = os.path.join(d, 'demo.py')
